@@ -184,9 +184,14 @@ def gen_world(ctx, tag):
             nested = "inherit %s\n" % ECL_NAMES[i + 1]
         w.write(w.eclass_path(placement[nm], nm), 'IUSE="%s_flag"\n%s' % (nm, nested))
     cpvs = []
-    for j in range(rng.choice([1, 2])):
+    prev_inh = []
+    for j in range(rng.choice([1, 2, 2, 3])):
         cpv = "cat/p%d-1" % j
-        inh = rng.sample(ECL_NAMES, rng.choice([0, 1, 1, 2, 3]))
+        if j and rng.random() < 0.6:
+            inh = list(prev_inh)     # packages sharing an inherit list are the common case in real trees
+        else:
+            inh = rng.sample(ECL_NAMES, rng.choice([0, 1, 1, 2, 3]))
+        prev_inh = inh
         text = "EAPI=%s\nSLOT=0\nDESCRIPTION=\"d0\"\n" % rng.choice(["5", "6", "7", "8"])
         if inh:
             text += "inherit %s\n" % " ".join(inh)
@@ -312,11 +317,12 @@ class Observer:
 
         ebuild_src.package_factory._get_metadata = recording_get
 
-    def read(self, w, cpv, cached=True):
-        """-> (regenerated?, metadata or None, error or None)"""
+    def read(self, w, cpv, cached=True, repo=None):
+        """-> (regenerated?, metadata or None, error or None); repo: reuse one repository object for several reads"""
         from pkgcore.ebuild.cpv import VersionedCPV
         c = VersionedCPV(cpv)
-        repo = w.open_repo(cached=cached)
+        if repo is None:
+            repo = w.open_repo(cached=cached)
         before = self.calls
         self.meta.pop(cpv, None)
         err = None
@@ -344,18 +350,71 @@ def one_history(ctx, obs, tag, script=None):
             for c in cpvs:
                 pending[c].append(k)
             continue
-        cpv = rng.choice(cpvs)
-        valid, reason = w.entry_valid(cpv)
-        ebd.take_stalls()
-        regen, meta, err = obs.read(w, cpv)
-        stalls = ebd.take_stalls()
+        if len(cpvs) > 1 and rng.random() < 0.4:
+            # several packages through ONE repository object (what a repo scan does): per-repo memoisation
+            # of validation results must not leak from one entry to another
+            todo = list(cpvs)
+            rng.shuffle(todo)
+            shared = w.open_repo(cached=True)
+            ctx.count("multi_package_reads_on_one_repo_object")
+        else:
+            todo, shared = [rng.choice(cpvs)], None
+        for cpv in todo:
+          valid, reason = w.entry_valid(cpv)
+          ebd.take_stalls()
+          regen, meta, err = obs.read(w, cpv, repo=shared)
+          stalls = ebd.take_stalls()
+          _judge_read(ctx, w, obs, cpv, valid, reason, regen, meta, err, stalls, log, pending, step)
+    # directed epilogue: partially refreshed cache.  Two packages record the same eclass; the eclass changes;
+    # only one package is re-read (its entry is refreshed); then ONE repository object reads the refreshed
+    # package first and the stale one second.
+    shared_ecl = None
+    if len(cpvs) > 1:
+        inh = {}
+        for c in cpvs:
+            d = w.parse_entry(c) or {}
+            names = (d.get("_eclasses_") or "").split("\t")[:: (2 if w.kind == "md5" else 3)]
+            inh[c] = set(n for n in names if n)
+        common = set.intersection(*inh.values()) if inh else set()
+        common = [n for n in common if w.resolve_eclass(n)]
+        if common:
+            shared_ecl = rng.choice(sorted(common))
+    if shared_ecl is not None and not ctx.out_of_time(60):
+        cur = w.resolve_eclass(shared_ecl)
+        with open(cur) as f:
+            text = f.read()
+        w.counter += 1
+        w.write(cur, text + 'IUSE+=" ep%d"\n' % w.counter)
+        w.all_edits.append("eclass-content")
+        log.append(["edit", "eclass-content(epilogue:%s)" % shared_ecl])
+        for c in cpvs:
+            pending[c].append("eclass-content")
+        first = rng.choice(cpvs)
+        order = [first] + [c for c in cpvs if c != first]
+        for cpv, repo_obj in [(first, None)]:
+            valid, reason = w.entry_valid(cpv)
+            ebd.take_stalls()
+            regen, meta, err = obs.read(w, cpv, repo=repo_obj)
+            _judge_read(ctx, w, obs, cpv, valid, reason, regen, meta, err, ebd.take_stalls(), log, pending, 99)
+        shared = w.open_repo(cached=True)
+        ctx.count("partial_refresh_epilogues")
+        for cpv in order:
+            valid, reason = w.entry_valid(cpv)
+            ebd.take_stalls()
+            regen, meta, err = obs.read(w, cpv, repo=shared)
+            _judge_read(ctx, w, obs, cpv, valid, reason, regen, meta, err, ebd.take_stalls(), log, pending, 99)
+    shutil.rmtree(w.base, ignore_errors=True)
+
+
+def _judge_read(ctx, w, obs, cpv, valid, reason, regen, meta, err, stalls, log, pending, step):
+        from .. import ebd
         if stalls:
             # both sides blocked reading: that is property C35's subject; this read cannot be judged here
             ctx.count("daemon_stalls_observed")
             ctx.note("daemon stall during read: %r" % (stalls[0],))
             ctx.skip_unspecified("daemon stalled during the read (reported by C35)")
             log.append(["read-stalled", cpv])
-            continue
+            return
         ctx.count("reads")
         ctx.count("reads_regenerated" if regen else "reads_served_from_cache")
         ctx.count("model:" + reason)
@@ -376,7 +435,7 @@ def one_history(ctx, obs, tag, script=None):
         if ebd.take_stalls():
             ctx.count("daemon_stalls_observed")
             ctx.skip_unspecified("daemon stalled during the reference regeneration (reported by C35)")
-            continue
+            return
         ctx.evaluated()
         if err2 is None and err is None:
             if not regen and w.kind == "flat" and any(e.endswith("same-mtime") for e in w.all_edits):
@@ -401,7 +460,6 @@ def one_history(ctx, obs, tag, script=None):
                 ctx.violation("entry-not-replaced-after-regen", dict(wit, after_reason=r2, rule=r2))
         if ctx.want_sample() and step > 4:
             ctx.sample({"cache": w.kind, "history": log})
-    shutil.rmtree(w.base, ignore_errors=True)
 
 
 def run(ctx):
